@@ -1,3 +1,5 @@
 import TephraProps.C08
 #print axioms Tephra.Props.C08_recover_success_transparent
 #print axioms Tephra.Props.C08_recover_no_sink_returns_error
+#print axioms Tephra.Props.C08_nosink_log_empty
+#print axioms Tephra.Props.C08_sink_monotone
